@@ -8,12 +8,18 @@
 (*    q: <<[lo, hi, ans]>>]  - every query in the order it was made (level-1 *)
 (*    queries by the splitting goroutine, level-2 queries by the workers);  *)
 (*    the filter is a function of the block, so a block has one answer.     *)
-(* BlockPieces' own Volume / SplitAxis / Split operators (instantiated) say *)
-(* which blocks must be queried: the root; both halves of every accepted    *)
-(* block that is still splittable at its level; and every accepted level-1  *)
-(* leaf once more when a worker picks it up.  Clauses                        *)
-(*   queries - the multiset of observed queries is exactly that             *)
-(*   answers - the harness's filter was consistent (sanity)                 *)
+(* What the property needs from the decomposition (clause "decomposition"): *)
+(*   the root is asked about; every other block asked about is one half of  *)
+(*   an axis-parallel cut of an ACCEPTED block whose other half is asked    *)
+(*   about too; no block is cut in two different ways.  Then the accepted   *)
+(*   blocks that are not cut (the leaves that get meshed) and the rejected  *)
+(*   blocks partition the grid, so with a conservative filter every cell    *)
+(*   the surface passes through is meshed exactly once.                     *)
+(* Whether the cuts are the ones BlockPieces' Volume / SplitAxis / Split    *)
+(* operators prescribe (longest axis, ties y over x and z over both, at the *)
+(* midpoint, down to minVolume) is an implementation choice the property    *)
+(* does not depend on: a difference is reported as NOTE "split-rule", not   *)
+(* as a violation.                                                          *)
 (***************************************************************************)
 EXTENDS Integers, Sequences, FiniteSets, TLC, Json
 
@@ -44,18 +50,33 @@ Asked1 == Asked(Root, R.mv1)
 Asked2 == UNION {Asked(b, R.mv2) : b \in L1}
 Expected(b) == (IF b \in Asked1 THEN 1 ELSE 0) + (IF b \in Asked2 THEN 1 ELSE 0)
 
+\* the two halves of p cut across axis a at coordinate m
+Lower(p, a, m) == [lo |-> p.lo, hi |-> [p.hi EXCEPT ![a] = m]]
+Upper(p, a, m) == [lo |-> [p.lo EXCEPT ![a] = m], hi |-> p.hi]
+\* the ways in which p was cut: both halves were asked about
+Cuts(p) == {c \in {<<a, m>> : a \in 1..3, m \in 0..32} :
+               /\ p.lo[c[1]] < c[2] /\ c[2] < p.hi[c[1]]
+               /\ Lower(p, c[1], c[2]) \in Observed /\ Upper(p, c[1], c[2]) \in Observed}
+HasParent(b) == \E p \in Observed : \E c \in Cuts(p) : b \in {Lower(p, c[1], c[2]), Upper(p, c[1], c[2])}
+Decomposition ==
+    /\ Root \in Observed
+    /\ \A b \in Observed : /\ \A k \in 1..3 : Root.lo[k] <= b.lo[k] /\ b.lo[k] < b.hi[k] /\ b.hi[k] <= Root.hi[k]
+                            /\ (b = Root \/ HasParent(b))
+    \* only accepted blocks are cut, and in one way only
+    /\ \A p \in Observed : Cardinality(Cuts(p)) <= 1 /\ (Cuts(p) # {} => Ans(p))
+ExactRule == Observed = Asked1 \cup Asked2 /\ \A b \in Observed : Count(b) = Expected(b)
+
 Holds(c) ==
     CASE c = "panic"   -> R.panic = ""
       [] c = "answers" -> Consistent
-      [] c = "queries" -> (R.panic = "" /\ Consistent) =>
-                              /\ Observed = Asked1 \cup Asked2
-                              /\ \A b \in Observed : Count(b) = Expected(b)
+      [] c = "decomposition" -> (R.panic = "" /\ Consistent) => Decomposition
       [] OTHER -> TRUE
-Clauses == {"panic", "answers", "queries"}
+Clauses == {"panic", "answers", "decomposition"}
 Fails == {c \in Clauses : ~Holds(c)}
 
 Init == rec \in 1..Len(Recs) /\ done = FALSE
 Next == /\ ~done /\ done' = TRUE /\ UNCHANGED rec
         /\ \A c \in Fails : PrintT(<<"REJECT", R.id, 0, c>>)
+        /\ (R.panic # "" \/ ~Consistent \/ ExactRule) \/ PrintT(<<"NOTE", R.id, "split-rule">>)
 Spec == Init /\ [][Next]_<<rec, done>>
 =============================================================================
